@@ -36,6 +36,8 @@ import (
 // child: executes op lines on the real code, one answer line per op
 // ---------------------------------------------------------------------------
 
+const childMaxStack = 64 << 20 // bytes of goroutine stack the child allows
+
 const childMemCap = 1500 << 20 // bytes of heap after which the child gives up (runaway allocation)
 
 func showCode(c string) string {
@@ -117,7 +119,7 @@ func execOp(line string) (res string) {
 	if len(ws) < 2 {
 		return "bad-op"
 	}
-	if ws[0] == "nest" || ws[0] == "drift" || ws[0] == "signs" {
+	if ws[0] == "nest" || ws[0] == "drift" || ws[0] == "signs" || ws[0] == "blank" {
 		// nest <entry> <hex> <count> ...: a large input given by its repeated segments
 		doc, ok := segments(ws[2:])
 		if !ok {
@@ -241,6 +243,9 @@ func execDoc(kind string, in []byte, ws []string) string {
 
 func childMain() {
 	debug.SetMemoryLimit(1 << 30)
+	// Stack use may grow with the nesting (at most maxNestingDepth levels, a few MB), never with the
+	// length of the input: 64 MB instead of Go's 1 GB makes a frame per token/line/sign visible at 1e6.
+	debug.SetMaxStack(childMaxStack)
 	go func() {
 		var ms runtime.MemStats
 		for {
@@ -448,7 +453,7 @@ func (r *runner) batch(ops []string) ([]string, string, string) {
 // watchdog so that machine load cannot produce a DIVERGE.
 func (r *runner) run(op string, confirm bool) (string, string) {
 	timeout := r.timeout
-	if strings.HasPrefix(op, "deep ") || strings.HasPrefix(op, "nest ") || strings.HasPrefix(op, "drift ") || strings.HasPrefix(op, "signs ") {
+	if strings.HasPrefix(op, "deep ") || strings.HasPrefix(op, "nest ") || strings.HasPrefix(op, "drift ") || strings.HasPrefix(op, "signs ") || strings.HasPrefix(op, "blank ") {
 		timeout = 30 * r.timeout // a megabyte of brackets: seconds of honest work before the stack limit
 		confirm = false
 	}
@@ -765,9 +770,68 @@ func (g *gen) generate(thorough bool) {
 	g.nestCases(thorough)
 	g.driftCases()
 	g.signRuns()
+	g.blankRuns(thorough)
 	// a megabyte of brackets: oracle only (the model answers the same question at 10x the limit above)
 	g.ops = append(g.ops, "deep 5b 1000000 -")
 	g.rep.Count("gen:deep-nesting")
+}
+
+// blankRuns: long runs of line breaks that the semicolon inserter drops
+// (blank lines, "\r\n", lines of spaces, comment-only lines) before, between,
+// inside and after values and statements, for every entry point.  A value or
+// an error, no crash.  Runs up to 1e5 bytes are also compared with the model.
+func (g *gen) blankRuns(thorough bool) {
+	add := func(kind string, segs ...string) {
+		op := "blank " + kind
+		for i := 0; i+1 < len(segs); i += 2 {
+			op += " " + hx.Hex([]byte(segs[i])) + " " + segs[i+1]
+		}
+		if g.seen[op] {
+			return
+		}
+		g.seen[op] = true
+		g.ops = append(g.ops, op)
+		g.rep.Count("gen:blank-line-runs")
+		g.rep.Count("entry:" + kind)
+	}
+	counts := []int{10000, 1000000}
+	if thorough {
+		counts = append(counts, 100000, 12000000)
+	}
+	for _, n := range counts {
+		ns := strconv.Itoa(n)
+		units := []string{"\n", "\r\n", "  \n", "\n// c\n", "\n\t"}
+		if n > 1000000 {
+			units = units[:1]
+		}
+		for ui, u := range units {
+			for _, kind := range []string{"tojson", "unmarshal", "series"} {
+				if n >= 1000000 && ui > 0 && (kind != "series" || !thorough && ui > 1) {
+					continue
+				}
+				if n >= 1000000 && ui > 0 && !thorough {
+					add(kind, "t 1", "1", u, ns, "u 2", "1") // quick tier: one more line-break spelling, between statements
+					continue
+				}
+				pre, post := "", ""
+				if kind == "series" {
+					pre, post = "t ", "\nu [2]\n"
+				}
+				add(kind, u, ns, pre+"{a:1}", "1") // before
+				if n >= 1000000 && !thorough && kind != "series" {
+					add(kind, pre+"[", "1", u, ns, "1]", "1") // quick tier: before and inside only
+					continue
+				}
+				add(kind, pre+"{a:1}", "1", u, ns)                               // after
+				add(kind, pre+"[", "1", u, ns, "1,", "1", u, ns, "2]"+post, "1") // inside, after '[' and ','
+				add(kind, pre+"{a:", "1", u, ns, "1}", "1")                      // after ':'
+				if kind == "series" {
+					add(kind, "t 1", "1", u, ns, "u 2", "1", u, ns, "v 3", "1") // between statements
+					add(kind, u, ns)                                            // nothing else
+				}
+			}
+		}
+	}
 }
 
 // signRuns: long runs of unary signs (1e4, 1e5, 2e6, 4 MiB), plain and mixed,
@@ -982,7 +1046,7 @@ func main() {
 	rep.Rule = "op = (entry point, input bytes); entry points: jsonx.ToJSON, jsonx.Unmarshal, Decoder.DecodeSeries, strtoken.Parse, " +
 		"the jsonx token stream; inputs: valid documents, all their prefixes, every single-token deletion/insertion, token soups " +
 		"(exhaustive small scopes + random), invalid UTF-8, unterminated strings/comments/brackets, with and without final newline, " +
-		"number-leaf boundaries, error-cap boundaries, nestings around the depth limit (limit-1, limit, limit+1, 10x; lists, objects, mixed; closed and unclosed), deep values after 1..1e6 closed siblings / earlier series statements, runs of 1e4..4Mi unary signs, complete values followed by lexer-level junk, random bytes; distinct = distinct op line; non-trivial = every op"
+		"number-leaf boundaries, error-cap boundaries, nestings around the depth limit (limit-1, limit, limit+1, 10x; lists, objects, mixed; closed and unclosed), deep values after 1..1e6 closed siblings / earlier series statements, runs of 1e4..4Mi unary signs, runs of 1e4..1.2e7 blank lines / dropped line breaks, complete values followed by lexer-level junk, random bytes; distinct = distinct op line; non-trivial = every op"
 	j := hx.NewJournal(f.Work)
 	run := &runner{timeout: 2 * time.Second, j: j}
 	defer run.close()
@@ -1024,7 +1088,7 @@ func main() {
 	kindOf := func(op string) string { return strings.SplitN(op, " ", 2)[0] }
 	longOp := func(op string) bool {
 		return strings.HasPrefix(op, "deep ") || strings.HasPrefix(op, "nest ") || strings.HasPrefix(op, "drift ") ||
-			strings.HasPrefix(op, "signs ")
+			strings.HasPrefix(op, "signs ") || strings.HasPrefix(op, "blank ")
 	}
 	record := func(i int, res, detail string) {
 		op := ops[i]
@@ -1038,6 +1102,9 @@ func main() {
 			// whatever was parsed and closed before, a value nested deeper than the limit must be refused
 			rep.Fail("depth-limit-drifts", fmt.Sprintf("after closed objects/lists (siblings or earlier statements on the same "+
 				"decoder) a value nested deeper than the limit was not refused with jsonx.tooDeep: %s %s", res, detail), []string{op})
+		case kind == "blank" && (res == "panic" || strings.HasPrefix(res, "panic ")):
+			// line breaks the semicolon inserter drops must cost no stack
+			rep.Fail("blank-line-run-overflows-stack", fmt.Sprintf("a long run of blank lines panicked or killed the process (child stack limit %d MB): %s %s", childMaxStack>>20, res, detail), []string{op})
 		case kind == "signs" && (res == "panic" || strings.HasPrefix(res, "panic ")):
 			// a run of unary signs is no nesting: it must cost no stack
 			rep.Fail("sign-run-overflows-stack", fmt.Sprintf("a long run of unary signs panicked or killed the process: %s %s", res, detail), []string{op})
@@ -1145,7 +1212,7 @@ func main() {
 	var mops []string
 	var midx []int
 	for i, op := range ops {
-		if strings.HasPrefix(op, "deep ") || impl[i] == "skipped" || (strings.HasPrefix(op, "drift ") || strings.HasPrefix(op, "signs ")) && opSize(op) > 400000 {
+		if strings.HasPrefix(op, "deep ") || impl[i] == "skipped" || (strings.HasPrefix(op, "drift ") || strings.HasPrefix(op, "signs ") || strings.HasPrefix(op, "blank ")) && opSize(op) > 400000 {
 			continue
 		}
 		mops = append(mops, op)
